@@ -72,6 +72,8 @@ JSElems == {VS(<<>>), VS(<<97>>), VS(<<120, 9, 121>>), VS(<<233>>), VS(<<10>>)}
 JSLists == UNION {[1..k -> JSElems] : k \in 1..MaxList}
 JoinSplitCases == {[fam |-> "joinsplit", x |-> VL(l), e |-> FA("split", FA("join", X, <<LS(sep)>>), <<LS(sep)>>)] :
                      l \in JSLists, sep \in {<<32>>, <<44>>, <<124>>}}
+                  \* (a separator that is not a string: whatever join makes of it, split with the same one undoes it)
+                  \cup {[fam |-> "joinsplit", x |-> VL(l), e |-> FA("split", FA("join", X, <<sep>>), <<sep>>)] : l \in JSLists, sep \in {LI(0), LI(7), LB(TRUE)}}
 \* slice on strings and lists: every start / length incl. omitted
 SliceArgs == {<<LI(a)>> : a \in (-SliceRange)..SliceRange} \cup {<<LI(a), LI(b)>> : a \in (-SliceRange)..SliceRange, b \in (-SliceRange)..SliceRange}
 SliceSubjects == {VS(<<104, 233, 108, 108, 111>>), VS(<<97>>), VS(<<>>), VL(<<VI(1), VI(2), VI(3), VI(4)>>), VL(<<>>),
@@ -80,7 +82,9 @@ SliceCases == {[fam |-> "slice", x |-> v, e |-> FA("slice", X, a)] : v \in Slice
                 \cup {[fam |-> "slice", x |-> v, e |-> F("length", FA("slice", X, a))] : v \in SliceSubjects, a \in {<<LI(1)>>, <<LI(-2)>>, <<LI(1), LI(2)>>}}
 \* default replaces exactly the empty and undefined values
 DefaultSubjects == {Null, VS(<<>>), VS(<<97>>), VS(<<32>>), VI(5), VI(-1), VB(TRUE), VL(<<>>), VL(<<VI(0)>>), VM(<<>>, <<>>),
-                    VM(<<VS(<<107>>)>>, <<VI(1)>>)}
+                    VM(<<VS(<<107>>)>>, <<VI(1)>>),
+                    \* lists that are not empty although every element is zero / empty (typed arrays and slices)
+                    VLg(<<VI(0), VI(0), VI(0)>>, "arr3"), VLg(<<VI(0), VI(0)>>, "ints"), VLg(<<VS(<<>>), VS(<<>>)>>, "strs"), VL(<<VI(0), VI(0)>>)}
 DefaultCases == {[fam |-> "default", x |-> v, e |-> FA("default", X, <<LS(<<100>>)>>)] : v \in DefaultSubjects}
 
                 \cup {[fam |-> "default", x |-> Null, e |-> FA("default", Var("undefinedvar"), <<LI(3)>>)]}
@@ -195,6 +199,10 @@ Progs == [ slicebase  |-> <<Set("items", ABC), Set("m", Call("merge", <<FA("slic
            twomerge   |-> <<Set("a", Call("merge", <<X, Arr(<<LI(8)>>)>>)), Set("b", Call("merge", <<X, Arr(<<LI(9)>>)>>)), JJ(Var("a")), Bar, JJ(Var("b")), Bar, JJ(X)>>,
            twomergef  |-> <<Set("a", FA("merge", X, <<Arr(<<LI(8)>>)>>)), Set("b", FA("merge", X, <<Arr(<<LI(9)>>)>>)), JJ(Var("a")), Bar, JJ(Var("b")), Bar, JJ(X)>>,
            mergeslice |-> <<Set("m", Call("merge", <<FA("slice", X, <<LI(0), LI(2)>>), FA("slice", X, <<LI(1)>>), X>>)), JJ(Var("m")), Bar, JJ(X)>>,
+           \* filters whose arguments change from one evaluation of the same tag to the next
+           loopargs   |-> <<For1("i", Arr(<<LI(0), LI(1), LI(2), LI(3)>>), <<PrintS(FA("slice", LS(<<97, 98, 99, 100, 101, 102>>), <<Var("i"), LI(2)>>)), Text(<<44>>)>>), Bar,
+                            For1("i", Arr(<<LI(1), LI(2), LI(3)>>), <<JJ(FA("slice", ABC, <<Var("i"), LI(1)>>)), Text(<<59>>), PrintS(FA("default", Var("nosuchvar"), <<Var("i")>>))>>), Bar,
+                            For1("s", Arr(<<LS(<<44>>), LS(<<124>>)>>), <<PrintS(FA("join", FA("merge", X, <<Arr(<<LI(7)>>)>>), <<Var("s")>>)), Text(<<59>>)>>)>>,
            threefn    |-> <<JJ(Call("merge", <<X, X, Arr(<<LI(6)>>)>>)), Bar, JJ(Call("merge", <<Arr(<<>>), X>>)), Bar, JJ(X)>> ]
 ProgCases == {[fam |-> "prog", x |-> v, e |-> X, p |-> p] : p \in DOMAIN Progs,
                 v \in {VL(<<VI(1), VI(2), VI(3)>>), VLg(<<VI(1), VI(2), VI(3)>>, "anycap"), VLg(<<VI(1), VI(2), VI(3)>>, "ints"), VL(<<>>)}}
